@@ -22,8 +22,8 @@ COMMON_ASSUMPTIONS = [
 
 register(
     "C14", "simlab.profiles.c14", "fault_enumeration",
-    budgets={"quick": dict(runs=96, timeout=120), "thorough": dict(runs=1600, timeout=600)},
-    rule=("each run = one seeded job/state configuration; for job runs EVERY file-system mutation of the whole job "
+    budgets={"quick": dict(runs=192, timeout=180), "thorough": dict(runs=3200, timeout=600)},
+    rule=("each run = one seeded job/state configuration (runs 0,1 mod 4: job runs; 2 mod 4: chain round-trip / spill sessions; 3 mod 4: tree round trips); for job runs EVERY file-system mutation of the whole job "
           "(open/create, each raw write incl. torn prefixes, rename, remove, mkdir) is a crash point whose on-disk "
           "snapshot is judged, then restarted jobs are run into sampled (thorough: all) snapshots and every crash "
           "point of the restarted job is judged again; round-trip runs dump/load generated states with scheduled "
